@@ -261,7 +261,7 @@ def write_evidence(prop, tier, seed, merged, wall, rule, assumptions, verdict, e
           'assumptions': assumptions, 'wall_s': round(wall, 2),
           'violations': sum(1 for v in merged['violations'] if not v.get('known'))}
     path = os.path.join(VERIF_DIR, 'evidence', '%s.json' % prop)
-    tmp = path + '.tmp'
+    tmp = path + '.%d.tmp' % os.getpid()
     with open(tmp, 'w') as f:
         json.dump(ev, f, indent=1, sort_keys=True, default=repr)
     os.replace(tmp, path)
